@@ -95,6 +95,39 @@ func main() {
 			}
 		}
 	}
+	// the same operations over the REAL transports (net/http server, client disconnect as
+	// cancellation): single-response POST / GET, SSE with keep-alive, multipart/mixed
+	for _, o := range ops {
+		n := 0
+		for _, ev := range o.Result.Events {
+			if ev.E == "Start" || ev.E == "End" {
+				n++
+			}
+		}
+		tk := []int{0, 1, 2, n / 2, n}
+		if thorough {
+			tk = nil
+			for k := 0; k <= n && k <= maxK; k++ {
+				tk = append(tk, k)
+			}
+		}
+		seen := map[int]bool{}
+		for _, k := range tk {
+			if k > n || seen[k] {
+				continue
+			}
+			seen[k] = true
+			for _, tp := range []string{"tp:post", "tp:get", "tp:sse", "tp:mixed"} {
+				for _, sched := range []string{"", "fifo"} {
+					if !thorough && sched == "fifo" && k%2 == 1 {
+						continue
+					}
+					all = append(all, &vlib.Scenario{ID: fmt.Sprintf("%s-k%d-%s-%s", o.ID, k, sched, tp), Op: o.Op, Query: o.Query, Vars: o.Vars,
+						Cancel: k, Sched: sched, Mode: tp, Leak: true})
+				}
+			}
+		}
+	}
 	for _, v := range vs {
 		var scs []*vlib.Scenario
 		for _, t := range all {
